@@ -83,6 +83,19 @@ claim('C13',
       'TLA+ spec (Wsgi.tla, WsgiWrap.tla) + TLC + trace validation of recorded WSGI interactions (Wsgi_Trace.tla, WsgiWrap_Trace.tla)',
       'DESIGN.md 3/C13')
 
+claim('C14',
+      'Static.tla models static serving as a sequence of file-system call actions shaped like get_file_response / find_file / '
+      'build_file_response (normpath as a stack machine, refusal rules, lookup over search directories, IMS mtime, second isfile, '
+      'open, mtime, size, peek, respond, non-breaking fall-through to an overlapping second static application) with one (call, errno) '
+      'fault per request. TLC checks NeverServerError, Confinement, EscapeRefused, Completeness, FaultsAreSoft, Conditional over every '
+      'raw segment sequence (names, "", ".", "..", "...") x IMS kind x fault. Bound to the code: EVERY behaviour TLC enumerates is '
+      'replayed against two overlapping real StaticApplications over a materialised tree (3 search directories, nested, text/binary/'
+      'empty/extension-less files, secrets beside and above the roots) with faults injected by shimming isfile/open/getmtime/getsize/'
+      'read at the modelled call; status, exact bytes, Content-Length, Last-Modified, Content-Type and absence of the secret marker are compared.',
+      'Trusted: TLC; the fault shims (module-attribute patching); symlinks not modelled; faults during body streaming are outside the property.',
+      'TLA+ spec (Static.tla) + TLC exhaustive + fault-injection replay of every TLC-enumerated behaviour',
+      'DESIGN.md 3/C14')
+
 claim('C19',
       'TLC model-checks Reservoir.tla (algorithm shaped like Reservoir.add/resize refines the property relation; '
       'Bounded/OnlyAdded/NeverRaises/ExactCount in every reachable state, all replacement indices, all resize points) '
